@@ -23,7 +23,10 @@ type Ctx struct {
 	J    map[string]JoinInfo // last successful join per client name
 	Vars map[string]any
 	V    []explore.Violation
-	Base struct{ Sessions, Clients float64 }
+	Base struct {
+		Sessions, Clients         float64
+		SessSeries, ClientSeries map[string]float64
+	}
 }
 
 func (x *Ctx) fail(oracle, detail, info string, a ...any) {
@@ -103,6 +106,7 @@ func RunBlock(b *Block, ch vrt.Chooser, trace bool) (out explore.Outcome, x *Ctx
 	x = &Ctx{W: w, C: map[string]*world.Client{}, J: map[string]JoinInfo{}, Vars: map[string]any{}}
 	x.Base.Sessions = gauge("session_count")
 	x.Base.Clients = gauge("ws_connected_clients")
+	x.Base.SessSeries, x.Base.ClientSeries = gaugeSeries("session_count"), gaugeSeries("ws_connected_clients")
 	defer func() {
 		if r := recover(); r != nil {
 			// make sure no goroutine survives an engine error
@@ -298,7 +302,9 @@ func oracleTags(oracle string) []string {
 		return []string{"C07", "C08", "C09"}
 	case "answer-count", "answer":
 		return []string{"C09", "C07", "C10"}
-	case "gauge", "orphaned-join", "empty-session-discoverable", "duplicate-session-id", "frame-worker":
+	case "duplicate-session-id":
+		return []string{"C07", "C03", "C10"}
+	case "gauge", "orphaned-join", "empty-session-discoverable", "frame-worker":
 		return []string{"C07", "C03"}
 	case "id", "id-source":
 		return []string{"C10", "C05", "C12", "C04", "C09"} // under concurrency a reissued id is corrupted shared state
@@ -321,6 +327,19 @@ func oracleTags(oracle string) []string {
 // not evidence against them).
 func violationTags(oracle, detail string) []string {
 	t := oracleTags(oracle)
+	if strings.Contains(detail, "under-back-pressure") {
+		return nil // the back-pressure histories: evidence for whichever property's check runs them
+	}
+	if oracle == "relay" {
+		// a relay that is lost, repeated or misdirected is also evidence against the
+		// property of its message class
+		extra := map[string][]string{"custom": {"C14"}, "customto": {"C14"}, "pose": {"C11"}, "action": {"C16"}, "asset": {"C16"}, "cadd": {"C12"}, "cupd": {"C12"}, "cdel": {"C12"}}
+		if i := strings.Index(detail, ":"); i > 0 {
+			if e, ok := extra[detail[:i]]; ok {
+				t = append(append([]string{}, t...), e...)
+			}
+		}
+	}
 	if oracle == "race" && (strings.Contains(detail, "IDGenerator") || strings.Contains(detail, "ID).") || strings.Contains(detail, "InstanceID") || strings.Contains(detail, "ParticipantID") || strings.Contains(detail, "EntityID")) {
 		t = append(append([]string{}, t...), "C10", "C05")
 	}
